@@ -501,20 +501,7 @@ func runC12Comments(k *gctx) {
 		for _, fs := range finals {
 			finalConds[fs.Cond] = true
 		}
-		// the documented exemption: `if len(src) == 0 { return nil }` as a top-level statement before any loop
-		var emptyIf *ast.IfStmt
-		for _, st := range fl.F.Decl.Body.List {
-			if _, isFor := st.(*ast.ForStmt); isFor {
-				break
-			}
-			if ifs, ok := st.(*ast.IfStmt); ok && ifs.Init == nil && c12KnownEmpty(fl, ifs.Cond, true, toks) && ifs.Else == nil {
-				emptyIf = ifs
-			}
-		}
 		exempt := func(cond ast.Expr, ci *core.CondInfo, taken bool) bool {
-			if emptyIf != nil && cond == emptyIf.Cond && taken {
-				return true
-			}
 			// no comments at all: nothing to flush
 			return ci != nil && ci.Kind == "if" && c12KnownEmpty(fl, cond, taken, comments)
 		}
@@ -536,8 +523,5 @@ func runC12Comments(k *gctx) {
 				lc, cc := d.coef[lenComments], d.coef[c12Term{cur, false}]
 				return (lc == 1 && cc == -1 && d.k == 0 && !taken) || (lc == -1 && cc == 1 && d.k == 1 && taken)
 			}}}})
-		if emptyIf != nil {
-			c.Info("R11.empty", name, k.g.Pos(emptyIf.Pos())+": exempted early success `"+core.Src(k.g.Fset, emptyIf.Cond)+"`: with no tokens Render writes nothing even when comments is non-empty, so a comment-only source is formatted to the empty file (reported as a genuine defect in notes/C12.md; not armed)")
-		}
 	}
 }
